@@ -71,7 +71,7 @@ for m in ("u16_u32_p12", "u32_u64_p24", "u32_u64_p32", "u8_u32_p8"):
          text="decode step == spec_pop at wide widths (division-free)")
     kani(f"ans::{m}::decode_total", ["C10", "C20"], tier=t, fns=[DEC])
 
-for w, tier in (("u8_u16", "quick"), ("u32_u64", "quick"), ("u8_u32", "thorough"), ("u16_u32", "thorough")):
+for w, tier in (("u8_u16", "quick"), ("u32_u64", "quick"), ("u8_u32", "quick"), ("u16_u32", "thorough")):
     kani(f"ans_io::{w}::export_import", ["C01", "C18", "C08"], tier=tier,
          fns=[ST + "into_compressed", ST + "from_compressed", ST + "read_initial_state", ST + "num_words", ST + "num_bits", ST + "is_empty", ST + "iter_compressed", "lib.rs::bit_array_to_chunks_truncated", ST + "clone"],
          text="into_compressed == bulk ++ LE chunks of state without leading zero words; num_words/num_bits/is_empty/iter_compressed agree; from_compressed inverts it")
@@ -367,3 +367,24 @@ verus_unit(
                               text="ensures: InvalidData iff quantile >= 2^P (state untouched); else Ok(model symbol of the quantile), invariants point-lower<range and range>=2^(sb-wb) re-established, state follows the interval step; all P"),
     },
 )
+kani("bits::stack_pop_then_push", ["C16", "C18"], fns=[S + "StackCoder::read_bit", S + "StackCoder::write_bit", S + "StackCoder::into_compressed"],
+     text="after n writes, k<=2 reads, one write: export == packing of the remaining bits ++ [y]")
+kani("huffman::f32_n3", ["C15"], kind="bounded", bound="3 symbols, f32 weights (all bit patterns)", timeout=1800, tier="thorough",
+     fns=[HF + "EncoderHuffmanTree::from_float_probabilities", HF + "DecoderHuffmanTree::from_float_probabilities", HF + "NonNanFloatCore"])
+kani("models::quantizer_search_u8", ["C03", "C10", "C20"], kind="bounded", bound="step-shaped CDFs (symbolic threshold); all supports, hints, quantiles of u8 symbols", timeout=7200, tier="thorough",
+     fns=[M + "quantize.rs::<LeakilyQuantizedDistribution as DecoderModel>::quantile_function"],
+     text="search terminates, symbol in support, interval holds the quantile, == encoder view; any support incl. 0..=255, any hint")
+kani("models::quantizer_search_i8", ["C03", "C10", "C20"], kind="bounded", bound="step-shaped CDFs; all supports, hints, quantiles of i8 symbols", timeout=7200, tier="thorough",
+     fns=[M + "quantize.rs::<LeakilyQuantizedDistribution as DecoderModel>::quantile_function"])
+kani("models::generic_conversions_p8", ["C05"], kind="bounded", bound="2-symbol tables, P=8", fns=[M + "model.rs::IterableEntropyModel::{to_generic_encoder_model,to_generic_decoder_model}", M + "categorical/non_contiguous.rs::{NonContiguousCategoricalDecoderModel,NonContiguousCategoricalEncoderModel}::from_iterable_entropy_model"])
+kani("models::generic_conversions_p5", ["C05"], kind="bounded", bound="2-symbol tables, P=5", tier="thorough", timeout=3600, fns=[M + "model.rs::IterableEntropyModel::{to_generic_encoder_model,to_generic_decoder_model}"])
+kani("models::lazy_vs_eager_small_p8", ["C05", "C03"], kind="bounded", bound="3 entries from {0,0.5,1,3}", timeout=900,
+     fns=[M + "categorical/lazy_contiguous.rs::LazyContiguousCategoricalEntropyModel::{from_floating_point_probabilities_fast,left_cumulative_and_probability,quantile_function}"])
+for p, tier in (("p5", "quick"), ("p8", "quick"), ("p3", "thorough")):
+    kani(f"chain::u8_u16_{p}::new_heads", ["C13", "C14", "C20"], tier=tier, fns=[CH + "ChainCoderHeads::new", CH + "ChainCoder::from_binary", CH + "ChainCoder::from_compressed"],
+         text="fresh coder: remainders head takes the fewest words reaching 2^(sb-wb-P); compressed head empty; Err iff data cannot fill the head")
+kani("models::fast_f32_rejects_bad_entries", ["C19"], fns=[M + "categorical.rs::fast_quantized_cdf"],
+     text="any NaN or negative entry => Err, for every (also caller-supplied) normalisation")
+kani("models::non_contiguous_fast_counts", ["C19", "C03"], kind="bounded", bound="3 probabilities, 1..4 symbols", timeout=900,
+     fns=[M + "categorical/non_contiguous.rs::NonContiguousCategoricalDecoderModel::from_symbols_and_floating_point_probabilities_fast"],
+     text="Ok iff the number of symbols equals the number of probabilities")
